@@ -420,12 +420,10 @@ func lexTaskCommands(l *Lexer) lexFn {
 			l.absorb(token.RINTERP)
 		case r == '}':
 			l.backup()
-			// The command may end in a space which we should clean up
-			if strings.HasSuffix(l.all(), " ") {
-				l.pos--
-			}
-			// Nor do we want a trailing carriage return, the same as at the end of a line
-			l.pos -= len(l.all()) - len(strings.TrimRight(l.all(), "\r"))
+			// Whatever blanks separate the command from the closing brace are layout, not part of the
+			// command ('{ go build }', '{ go build  }' and '{ go build<tab>}' all say 'go build'), and neither
+			// is a trailing carriage return, the same as at the end of a line
+			l.pos -= len(l.all()) - len(strings.TrimRight(l.all(), " \t\r"))
 			if len(l.all()) != 0 {
 				// If we actually have a command and not just an empty token
 				l.emit(token.COMMAND)
